@@ -3,8 +3,9 @@ CONSTANTS
   U = 1024
   RootT = 4
   Family = "fstep"
-  Grids <- Grids_t
-  MaxT = 2
-  MaxRoots = 2
+  Grids <- Grids_evt
+  MaxT = 1
+  MaxRoots = 1
+  KAll = TRUE
   Known <- Known_none
 INVARIANTS ContractHolds Emit
